@@ -31,6 +31,7 @@ func loadsField(v ssa.Value, st, field string) bool {
 }
 
 func runC28(c *Ctx) {
+	c28Total(c)
 	c.Rule("C28.PUSH", "PASS: in CreatePolicy and UpdatePolicy every path from storing the policy in the cache to a nil-error return passes updateTrackersForToken — unconditionally, also for a token's first policy (its limiters already exist with the config defaults and ignore the limit argument once created)")
 	for _, name := range []string{"CreatePolicy", "UpdatePolicy"} {
 		fn := c.P.Func("(*internal/governance.Manager)." + name)
